@@ -4,10 +4,12 @@ package filtering
 
 import (
 	"bytes"
+	"context"
 	"encoding/json"
 	"fmt"
 	"io"
 	"math/rand"
+	"net"
 	"net/http"
 	"net/http/httptest"
 	"net/url"
@@ -625,13 +627,15 @@ func c17PatternPool(r string) (fixed []c17Cfg, pool []string) {
 var c17FileHostRe = regexp.MustCompile(`g(\d+)-(\d+)\.example`)
 
 type c17Env struct {
-	t       *testing.T
-	rep     *verifkit.Report
-	tr      *c17Tree
-	ctlURL  string
-	ctlSeq  int
-	scratch string
-	strace  bool
+	t      *testing.T
+	rep    *verifkit.Report
+	tr     *c17Tree
+	ctlURL string
+	// transport reaches the control server.
+	transport *http.Transport
+	ctlSeq    int
+	scratch   string
+	strace    bool
 }
 
 type c17Inst struct {
@@ -680,7 +684,7 @@ func (e *c17Env) newInstAt(cfg c17Cfg, filters, allow []FilterYAML, dataDir stri
 		FilteringEnabled: true,
 		SafeFSPatterns:   append([]string(nil), cfg.Patterns...),
 		DataDir:          in.dataDir,
-		HTTPClient:       &http.Client{Timeout: 10 * time.Second},
+		HTTPClient:       &http.Client{Timeout: 10 * time.Second, Transport: e.transport},
 		ConfigModified:   func() {},
 		HTTPRegister: func(_, u string, h http.HandlerFunc) {
 			in.handlers[u] = h
@@ -1430,8 +1434,40 @@ func (in *c17Inst) judgeRefresh(loc c17Loc, ex c17Expect, ob *c17Obs) {
 // Driver
 // ---------------------------------------------------------------------------
 
-func c17ControlServer() *httptest.Server {
-	return httptest.NewServer(http.HandlerFunc(func(w http.ResponseWriter, r *http.Request) {
+// c17PipeListener accepts the server ends of in-memory connections.
+type c17PipeListener struct {
+	conns chan net.Conn
+	done  chan struct{}
+}
+
+func (l *c17PipeListener) Accept() (net.Conn, error) {
+	select {
+	case c := <-l.conns:
+		return c, nil
+	case <-l.done:
+		return nil, net.ErrClosed
+	}
+}
+
+func (l *c17PipeListener) Close() error {
+	select {
+	case <-l.done:
+	default:
+		close(l.done)
+	}
+	return nil
+}
+
+func (l *c17PipeListener) Addr() net.Addr { return &net.TCPAddr{IP: net.IPv4(127, 0, 0, 1), Port: 80} }
+
+// c17ControlServer starts the http server of the positive controls.  It is
+// reached through a real http.Transport (so that scheme handling is the
+// standard one) whose dialer hands out in-memory connections: thousands of
+// list downloads then need no sockets (a loopback listener ran the host out
+// of ephemeral ports).  Every host name leads to this server.
+func c17ControlServer() (tp *http.Transport, stop func()) {
+	l := &c17PipeListener{conns: make(chan net.Conn), done: make(chan struct{})}
+	srv := &http.Server{Handler: http.HandlerFunc(func(w http.ResponseWriter, r *http.Request) {
 		if strings.HasPrefix(r.URL.Path, "/ok/") && strings.HasSuffix(r.URL.Path, ".txt") {
 			n := strings.TrimSuffix(strings.TrimPrefix(r.URL.Path, "/ok/"), ".txt")
 			if _, err := strconv.Atoi(n); err == nil {
@@ -1440,7 +1476,24 @@ func c17ControlServer() *httptest.Server {
 			}
 		}
 		http.NotFound(w, r)
-	}))
+	})}
+	go func() { _ = srv.Serve(l) }()
+	tp = &http.Transport{
+		Proxy: nil,
+		DialContext: func(ctx context.Context, _, _ string) (net.Conn, error) {
+			c, s := net.Pipe()
+			select {
+			case l.conns <- s:
+				return c, nil
+			case <-l.done:
+				return nil, net.ErrClosed
+			case <-ctx.Done():
+				return nil, ctx.Err()
+			}
+		},
+		TLSHandshakeTimeout: 2 * time.Second,
+	}
+	return tp, func() { tp.CloseIdleConnections(); _ = srv.Close(); _ = l.Close() }
 }
 
 // c17Locations generates the locations tried against one pattern list.
@@ -1591,8 +1644,21 @@ func c17Run(t *testing.T, rep *verifkit.Report, strace bool) {
 	log.SetOutput(io.Discard)
 	rng := rep.Rand("main")
 
-	root, err := filepath.EvalSymlinks(t.TempDir())
+	// The name of the root has a fixed length: generated spellings depend on
+	// string lengths, and the same seed must give the same cases.
+	var root string
+	var err error
+	for k := 0; k < 1000; k++ {
+		root = filepath.Join(os.TempDir(), fmt.Sprintf("TestVerifC17-%010d", (os.Getpid()*1000+k)%10000000000))
+		if err = os.Mkdir(root, 0o755); err == nil {
+			break
+		}
+	}
 	if err != nil {
+		t.Fatal(err)
+	}
+	t.Cleanup(func() { _ = os.RemoveAll(root) })
+	if root, err = filepath.EvalSymlinks(root); err != nil {
 		t.Fatal(err)
 	}
 	if strings.ContainsAny(root, "*?[\\ \n") {
@@ -1608,9 +1674,9 @@ func c17Run(t *testing.T, rep *verifkit.Report, strace bool) {
 		t.Fatal(err)
 	}
 	t.Chdir(tr.cwd)
-	srv := c17ControlServer()
-	defer srv.Close()
-	env := &c17Env{t: t, rep: rep, tr: tr, ctlURL: srv.URL, scratch: scratch, strace: strace}
+	tp, stop := c17ControlServer()
+	defer stop()
+	env := &c17Env{t: t, rep: rep, tr: tr, ctlURL: "http://127.0.0.1:8053", transport: tp, scratch: scratch, strace: strace}
 	rep.Assume("no symbolic links are involved (the tree is created by the monitor; the cleaned absolute path is the file)")
 	rep.Assume("a read is recognised by content: every tree file holds a unique rule, looked for in stored list files, response bodies, rule counts and CheckHost")
 
